@@ -214,6 +214,22 @@ fn hook(k: &mut K, n: usize, a: &[usize; 6]) -> Option<usize> {
     }
 }
 
+/// native replays only: the mapping table and the munmap calls of the counterexample
+fn dump(k: &K, entries: u32, single: bool) {
+    println!("trace: entries={} single_mmap={} bad_unmap={}", entries, single, k.bad_unmap);
+    let mut i = 0;
+    while i < sc::vk::NMAP {
+        println!("trace: map {} addr={:#x} len={} live={}", i, k.maps[i].addr, k.maps[i].len, k.maps[i].live);
+        i += 1;
+    }
+    i = 0;
+    while i < k.calls && i < sc::vk::LOG {
+        let c = &k.log[i];
+        println!("  call {}: nr={} a0={:#x} a1={:#x} -> {:#x}{}", i, c.nr, c.a[0], c.a[1], c.ret, if c.failed { " (injected failure)" } else { "" });
+        i += 1;
+    }
+}
+
 // @ob C18 quick uring_setup_teardown fns=setup_io_uring,io_uring_setup,rusl::unistd::mmap,IoUring::drop,rusl::unistd::munmap bound="entries 1,2,4; SINGLE_MMAP feature on/off; SQE128 flag on/off; one failing system call at any index (or none)" timeout=1500
 #[kani::proof]
 #[kani::unwind(8)]
@@ -240,13 +256,21 @@ fn uring_setup_teardown() {
         Ok(ring) => {
             assert!(k.live_maps() == if single { 2 } else { 3 }, "rings and entries mapped");
             drop(ring);
+            if k.bad_unmap != 0 || k.live_maps() != 0 {
+                dump(k, entries, single);
+            }
             assert!(k.bad_unmap == 0, "dropping the ring unmaps each mapping exactly once with its exact address and length (no range twice, nothing else)");
-            assert!(k.live_maps() == 0, "dropping the ring releases every mapping");
+            if k.count_failed(nr::MUNMAP) == 0 {
+                // (an munmap that the kernel itself refuses cannot be repaired by drop)
+                assert!(k.live_maps() == 0, "dropping the ring releases every mapping");
+            }
             assert!(k.fd_open == k.fd_initial && k.bad_close == 0, "and its descriptor, once");
         }
         Err(_) => {
             assert!(k.bad_unmap == 0, "no bogus unmap on the failure path");
-            assert!(k.live_maps() == 0, "a failed set-up leaves nothing mapped");
+            if k.count_failed(nr::MUNMAP) == 0 {
+                assert!(k.live_maps() == 0, "a failed set-up leaves nothing mapped");
+            }
             assert!(k.fd_open == k.fd_initial, "a failed set-up leaves no descriptor open");
         }
     }
